@@ -183,3 +183,32 @@ Example C14_example_live :
           (2690, XS STake); (3000, XC CApp); (3700, XS SWake); (4100, XDeliver); (4110, XC CRearm); (4500, XDeliverPong)] 4510
   with Some st => true | None => false end = true.
 Proof. vm_compute. reflexivity. Qed.
+
+(** * Upgrades that fail: the downlink comes back (import of C07's invariant, Eio/Upgrade.v).
+    While the client probes a new transport its long-polling loop is paused, i.e. the downlink of
+    the composed system is down; the hypothesis "every ping is delivered within lDown" of
+    C14_live_never_killed therefore needs: polling is paused ONLY while a probe / swap is in
+    progress, and a failed attempt leaves it resumed - in every state of every schedule of the
+    upgrade model.  (A client that stays paused after a failed probe is a link that never delivers
+    a ping again: both heartbeats then close a healthy connection - the independent mutant
+    C14-ind2-failed-upgrade-leaves-polling-paused; replayed live by the upfail-* scenarios.) *)
+From SioV Require Eio.Upgrade Eio.HeartbeatUpgrade.
+
+Theorem C14_failed_upgrade_resumes_polling : forall sched,
+  let st := Upgrade.run sched Upgrade.init in
+  Upgrade.c_cand st = Upgrade.KFail -> Upgrade.c_paused st = false.
+Proof. exact HeartbeatUpgrade.failed_upgrade_resumes_polling. Qed.
+
+Theorem C14_polling_paused_only_while_probing : forall sched,
+  let st := Upgrade.run sched Upgrade.init in
+  Upgrade.c_paused st = true -> Upgrade.c_cand st = Upgrade.KProbe \/ Upgrade.c_cand st = Upgrade.KSwapWait.
+Proof. exact HeartbeatUpgrade.paused_only_while_probing. Qed.
+
+(** A link that stops delivering (bound lDown larger than T) lets the server kill a live peer. *)
+Example C14_link_that_stops_delivering_kills_live :
+  match xvalid (mkCfg 1000 1000 0 true) (mkLink 5000 100 keep_code) 0
+               [(1000, XS SWake); (2000, XS STimeout)] 2000 with
+  | Some st => match s_reason (xs st) with Some PingTimeout => true | _ => false end
+  | None => false
+  end = true.
+Proof. vm_compute. reflexivity. Qed.
